@@ -196,7 +196,13 @@ Definition elem_step (t : nat) (b : bstate) (grow frz : bool) (innext : list sta
   (if frz && done_of t slots then freeze (hS b) slots else dec_len t slots adv,
    map (fun s => nth (n * pw b + s) innext dstate) (snd adv)).
 
-(* one iteration of the for loop; None = break *)
+(* one iteration of the for loop; None = break.
+   NOT modelled: the two exceptions the code can raise here when beam_search_advance did not
+   grow y (no length has reached S) although the loop goes on - (i) the LM is then asked for
+   idx = t > hist.size(0), (ii) torch.where(done_mask, y_prev ++ pad, y_next) has mismatching
+   heights when some but not all elements are done.  Only reachable with zero-probability
+   tokens under finish_all_paths (see notes/C04_report.md); [search] describes what is returned
+   when forward() returns. *)
 Definition step (t : nat) (b : bstate) : option bstate :=
   let N := length (beams b) in
   let dones := map (done_of t) (beams b) in
